@@ -219,9 +219,10 @@ where
     /// TODO
     fn decode_from(decoder: &mut Decoder<impl InputSource>) -> Result<Self> {
         // Decode how many elements are in this sequence, and attempt to allocate a vec with the necessary capacity.
-        let length = decoder.decode_varuint()?;
+        let length: usize = decoder.decode_varuint()?;
         let mut vector = Vec::new();
-        vector.try_reserve_exact(length)?;
+        // The announced length isn't trusted: never reserve more elements than there are bytes left to decode.
+        vector.try_reserve_exact(length.min(decoder.remaining()))?;
 
         // Decode each element, and push them into the vector, one by one.
         for _ in 0..length {
@@ -245,9 +246,10 @@ where
     /// TODO
     fn decode_from(decoder: &mut Decoder<impl InputSource>) -> Result<Self> {
         // Decode how many entries are in this dictionary, and attempt to allocate a map with the necessary capacity.
-        let length = decoder.decode_varuint()?;
+        let length: usize = decoder.decode_varuint()?;
         let mut map = HashMap::new();
-        map.try_reserve(length)?;
+        // The announced length isn't trusted: never reserve more entries than there are bytes left to decode.
+        map.try_reserve(length.min(decoder.remaining()))?;
 
         // Decode 'length'-many entries into the map.
         decode_dictionary_entries!(map, decoder, length);
